@@ -396,7 +396,23 @@ fn margins_case(ctx: &mut Ctx, wl: &str, case: u64, rng: &mut Rng) {
         }
         vars.s = s;
     }
+    // a slice with a few components astronomically far outside (what an initial KKT solve returns for
+    // big-M data): the shift has to move the vector by that much and still leave a positive margin
+    let far = rng.bool(0.15);
+    if far {
+        for _ in 0..rng.usize(1, 3) {
+            let i = rng.usize(0, m - 1);
+            let big = -(10f64.powf(rng.range(14.0, 40.0)));
+            if rng.bool(0.5) {
+                vars.s[i] = big;
+            } else {
+                vars.z[i] = big;
+            }
+        }
+        ctx.bump("initialization_far_outside_instances");
+    }
     let z_before = vars.z.clone();
+    let s_before = vars.s.clone();
     vars.symmetric_initialization(&mut comp);
     ctx.eval(1);
     for (c, r) in cts.iter().zip(cone_ranges(&cts)) {
@@ -409,8 +425,28 @@ fn margins_case(ctx: &mut Ctx, wl: &str, case: u64, rng: &mut Rng) {
         }
         let (ms, ss) = vc::margin(c, sv, false);
         let (mz, sz) = vc::margin(c, zv, true);
-        if !(ms > 1e-14 * ss && mz > 1e-14 * sz) {
-            ctx.violation("initialization:not_interior", &format!("initialization:not_interior:{}", cone_name(c)), wl, case, json!({"cone": cone_name(c), "s": sv, "z": zv, "margins": [ms, mz]}));
+        // interior means a positive margin; the relative form only guards against an oracle-side rounding
+        // of the margin itself, which cannot happen for the orthant (exact minimum)
+        // (PSD margins are eigenvalues computed in double precision: they keep the relative form)
+        let strict = matches!(c, ConeT::NonnegativeConeT(_)) || (far && matches!(c, ConeT::SecondOrderConeT(_)));
+        let ok = if strict {
+            ms > 0.0 && mz > 0.0
+        } else if far {
+            // PSD block at astronomic scale: only a margin that is negative beyond the oracle's own
+            // eigenvalue rounding refutes interiority
+            ms > -1e-14 * ss && mz > -1e-14 * sz
+        } else {
+            ms > 1e-14 * ss && mz > 1e-14 * sz
+        };
+        if !ok {
+            // recorded finding: a second-order or PSD block in which some component (before or after the
+            // shift) has magnitude >= 2^52: the unit shift and/or the target margin is absorbed by rounding
+            // and the block stays on or outside the boundary.  Orthant blocks are never excused.
+            let huge = |v: &[f64]| v.iter().fold(0.0f64, |m, t| m.max(t.abs())) >= 4.5e15;
+            let nonpoly = !matches!(c, ConeT::NonnegativeConeT(_));
+            let absorbed = nonpoly && (huge(sv) || huge(zv) || huge(&s_before[r.clone()]) || huge(&z_before[r.clone()]));
+            let sig = if absorbed { format!("initialization:not_interior:{}:shift_absorbed_by_rounding", cone_name(c)) } else { format!("initialization:not_interior:{}", cone_name(c)) };
+            ctx.violation("initialization:not_interior", &sig, wl, case, json!({"cone": cone_name(c), "s": sv, "z": zv, "margins": [ms, mz]}));
         }
     }
     if vars.τ != 1.0 || vars.κ != 1.0 {
